@@ -713,7 +713,15 @@ impl Constructor {
             (Constructor::Bool(b1), Constructor::Bool(b2)) => b1 == b2,
             (Constructor::Variant(..), Constructor::Variant(..)) => self == other,
             (Constructor::Int(i1), Constructor::Int(i2)) => i1 == i2,
-            (Constructor::Float(f1), Constructor::Float(f2)) => f1 == f2,
+            // float literals are kept as their spelling; two spellings are the same
+            // constructor when they denote the same binary64 value (`1.0` and `1.00`),
+            // which is what the run-time comparison (total_cmp) tests
+            (Constructor::Float(f1), Constructor::Float(f2)) => {
+                match (f1.parse::<f64>(), f2.parse::<f64>()) {
+                    (Ok(v1), Ok(v2)) => v1.total_cmp(&v2).is_eq(),
+                    _ => f1 == f2,
+                }
+            }
             (Constructor::String(s1), Constructor::String(s2)) => s1 == s2,
             (Constructor::Product, Constructor::Product) => true,
             _ => panic!(
